@@ -1,7 +1,6 @@
 //! C12: operations are pure and deterministic — operands unchanged, results independent of the
 //! call history, of the thread a call runs in, and of calls running concurrently in other threads.
 use super::base::*;
-use crate::complex::*;
 use crate::geom::*;
 use crate::run::*;
 use crate::sched::*;
